@@ -460,3 +460,29 @@ def driver_supports(driver, op):
     """Does the extracted-model driver know operation family `op`?"""
     rc, out, err = run_lines(driver, ["HAS " + op])
     return bool(out) and out[0] == "YES"
+
+
+def run_huge(res, bdir, config, tests, sig_prefix="huge"):
+    """thorough tier: harness/x_huge.c against the library in bdir (lengths of 2^32 bytes and more); returns the result lines"""
+    exe = os.path.join(bdir, "x_huge")
+    rc, log = sh(["gcc", "-O2", "-I" + os.path.join(REPO, "src"), "-I" + os.path.join(REPO, "src", "ascon"), os.path.join(VERIF, "harness", "x_huge.c"),
+                  os.path.join(bdir, "src", "libascon_static.a"), "-o", exe], timeout=300)
+    if rc != 0:
+        res.violation("harness-build-failed@x_huge", "harness/x_huge.c no longer compiles against /repo:\n" + log[-1200:], {"log_tail": log[-3000:]}, no_input=True)
+        return []
+    lines = []
+    for t in tests:
+        p = subprocess.run(["timeout", "1500", exe, t], stdout=subprocess.PIPE, stderr=subprocess.PIPE)
+        out = p.stdout.decode("utf-8", "replace").split("\n")
+        for l in out:
+            if l.startswith("FAIL "):
+                name = l.split()[1]
+                res.violation("%s:%s@%s" % (sig_prefix, name, config),
+                              "with a length of 2^32 bytes or more (%s build): %s" % (config, l[5:]),
+                              {"config": config, "test": t, "line": l, "how": "build /repo (%s), gcc harness/x_huge.c libascon_static.a, run: x_huge %s (needs ~5 GiB of memory)" % (config, t)})
+            if l.startswith(("OK ", "FAIL ")):
+                lines.append(l)
+        if p.returncode not in (0, 1):
+            res.violation("%s:%s-crash@%s" % (sig_prefix, t, config), "x_huge %s ended with status %d: %s" % (t, p.returncode, p.stderr.decode("utf-8", "replace")[-300:]),
+                          {"config": config, "test": t}, no_input=True)
+    return lines
